@@ -35,7 +35,9 @@ pub fn method_ok(api: i64, st: u8, m: i64) -> bool {
         // EntryRef::key (5) / or_insert_with_key (4) need K: Borrow<Q>: only for key types with KeyT::BORROWS,
         // see method_ok_k
         (1, 0) => matches!(m, 1 | 2 | 3 | 4 | 5 | 6 | 9 | 26),
-        (1, 1) => (10..=16).contains(&m),
+        // 17 / 18: replace_entry_with (Some / None) on the occupied entry; it hands back an owned-key `Entry`, on which
+        // the chain may go on with insert (1) or or_insert (2) only
+        (1, 1) => (10..=18).contains(&m),
         (1, 2) => matches!(m, 20 | 22 | 23),
         (2..=4, 0) => matches!(m, 1 | 2 | 3 | 6 | 7 | 8 | 9),
         (2..=4, 1) => (10..=18).contains(&m) || (30..=35).contains(&m),
@@ -75,12 +77,19 @@ pub fn model_chain(model: &mut MapModel, api: i64, kid: u32, ks: u32, methods: &
         ki += 1;
         k
     };
+    let mut switched = false;
     for &m in methods {
         if st == 3 {
             break;
         }
         if !method_ok_k(api, st, m, borrows) {
             break;
+        }
+        if switched && !matches!(m, 1 | 2) {
+            break;
+        }
+        if api == 1 && st == 1 && matches!(m, 17 | 18) {
+            switched = true;
         }
         let occ = model.pos(kid);
         match (st, m) {
@@ -94,7 +103,7 @@ pub fn model_chain(model: &mut MapModel, api: i64, kid: u32, ks: u32, methods: &
                     }
                     None => model.e.push(ME { kid: if raw { ikid } else { kid }, ks: newk, v: v.0, vs: v.1 }),
                 }
-                st = if foreign { 3 } else { 1 };
+                st = if foreign || switched { 3 } else { 1 };
             }
             (0, 2) | (0, 3) | (0, 4) => {
                 let v = next_val();
@@ -374,6 +383,8 @@ impl<K: KeyT, V: ValT> MapWorld<K, V> {
                 1 => {
                     enum St<'a, 'b, K: KeyT, V> {
                         E(EntryRef<'a, 'b, K, K::View, V, SimBuildHasher, SimAlloc>),
+                        /// the owned-key entry that `replace_entry_with` hands back
+                        E0(hashbrown::hash_map::Entry<'a, K, V, SimBuildHasher, SimAlloc>),
                         O(OccE<'a, K, V>),
                         V(VacantEntryRef<'a, 'b, K, K::View, V, SimBuildHasher, SimAlloc>),
                         Done,
@@ -381,12 +392,15 @@ impl<K: KeyT, V: ValT> MapWorld<K, V> {
                     let mut st = St::E(m.entry_ref(viewr));
                     for &mth in &methods {
                         let code = match &st {
-                            St::E(_) => 0,
+                            St::E(_) | St::E0(_) => 0,
                             St::O(_) => 1,
                             St::V(_) => 2,
                             St::Done => 3,
                         };
                         if code == 3 || !method_ok_k(1, code, mth, K::BORROWS) {
+                            break;
+                        }
+                        if matches!(st, St::E0(_)) && !matches!(mth, 1 | 2) {
                             break;
                         }
                         st = match (st, mth) {
@@ -447,6 +461,36 @@ impl<K: KeyT, V: ValT> MapWorld<K, V> {
                                     St::V(v)
                                 }
                             },
+                            (St::E0(e), 1) => {
+                                drop(e.insert(vals.next().unwrap()));
+                                St::Done
+                            }
+                            (St::E0(e), _) => {
+                                let r = e.or_insert(vals.next().unwrap());
+                                log.push(Ev::Val(r.val(), r.serial()));
+                                St::Done
+                            }
+                            (St::O(o), 17) => {
+                                let mut nv = vals.next();
+                                let lg = &mut log;
+                                let rvv = &mut *rv;
+                                St::E0(o.replace_entry_with(|_k, old| {
+                                    tick(Class::Pred);
+                                    lg.push(Ev::Old(old.val(), old.serial()));
+                                    rvv.push(old);
+                                    nv.take()
+                                }))
+                            }
+                            (St::O(o), 18) => {
+                                let lg = &mut log;
+                                let rvv = &mut *rv;
+                                St::E0(o.replace_entry_with(|_k, old| {
+                                    tick(Class::Pred);
+                                    lg.push(Ev::Old(old.val(), old.serial()));
+                                    rvv.push(old);
+                                    None
+                                }))
+                            }
                             (St::O(o), mm) => match occupied_step(o, mm, &mut vals, &mut log, rk, rv) {
                                 Some(o) => St::O(o),
                                 None => St::Done,
